@@ -200,6 +200,18 @@ def r_acceptance(ck: Checker) -> None:
         else:
             ck.guard("negation only for conditions from negated aggregates", func, c, "conditions.issubset(agg_conditions[Sign.Negation])", "")
             ck.add("negated bucket: guards are negated back", atom == "negate_agg(cond.atom)", func, c, f"`{atom}`", "the relation was translated with the negated operator; under `not` it must be negated again")
+    na = ck.func("utils.ast:negate_agg")
+    itn = ck.interp(na)
+    agg_p = na.params()[0]
+    for side in ("left_guard", "right_guard"):
+        ups_g = [c for c in attr_calls(na, "update") if kwarg(c, side) is not None]
+        okg = len(ups_g) == 1
+        txt_g = ""
+        if okg:
+            txt_g = unparse(kwarg(ups_g[0], side)).replace(" ", "")  # type: ignore[arg-type]
+            okg = bool(re.fullmatch(rf"(\w+)\.{side}\.update\(comparison=negate_comparison\(\1\.{side}\.comparison\)\)", txt_g)) and itn.holds(ups_g[0], f"{agg_p}.{side}")
+        ck.add(f"negate_agg: the {side.replace('_', ' ')} is replaced by its own negated operator", okg, na, ups_g[0] if ups_g else na.node, f"`{short(txt_g, 110)}`",
+               "an aggregate re-attached under `not` was translated with negated guards: negating the left operator with the right guard's (or not at all) changes which sums satisfy it")
     reg = [c for c in attr_calls(func, "update") if unparse(c.func.value).startswith("agg_conditions[")]  # type: ignore[attr-defined]
     ok = len(reg) == 1 and unparse(reg[0].func.value) == "agg_conditions[blit.sign]" and unparse(reg[0].args[0]) == "conditions_of_body_agg(blit.atom)"  # type: ignore[attr-defined]
     ck.add("conditions are filed under the sign of their literal", ok, func, reg[0] if reg else func.node, f"`{fmt(reg[0]) if reg else None}`", "")
